@@ -297,6 +297,7 @@ struct Opt {
   int explicit_att = -1;   // attribute quantised with SetAttributeExplicitQuantization(bits, explicit_dims < components, origin, range)
   int explicit_dims = 0;
   float explicit_origin = -3000.f, explicit_range = 8000.f;
+  bool desc_order = false;      // set per-attribute options from the last attribute to the first
   bool reuse_enc = false;       // type-keyed Encoder API only: encode with ONE Encoder object per thread that has served every earlier case (Reset() first)
   bool compress_conn = false;   // sequential meshes: global option "compress_connectivity" (delta + entropy coded indices instead of stored indices)
 };
@@ -317,6 +318,7 @@ inline Opt gen_options(vrt::Rng &r, const Geom &g) {
   o.expert = r.coin(3, 4);
   o.compress_conn = r.coin(1, 3);
   o.reuse_enc = r.coin();
+  o.desc_order = r.coin();
   // Observation O3: the constrained multi-parallelogram ENCODER sizes an entropy histogram by the largest residual symbol (gigabytes for 32-bit
   // wide values; the process is killed by the kernel, not by the codec).  No property speaks about encoder memory: geometries with wide 32-bit
   // attributes stay away from that one scheme (explicitly, and as the default of Edgebreaker at speeds 0 and 1).
@@ -356,7 +358,9 @@ inline Encoded encode(const Geom &g, const Opt &o) {
     enc->SetUseBuiltInAttributeCompression(o.builtin);
     if (o.split >= 0) enc->options().SetGlobalBool("split_mesh_on_seams", o.split != 0);
     if (o.compress_conn) enc->options().SetGlobalBool("compress_connectivity", true);
-    for (int a = 0; a < (int)o.qbits.size(); ++a) {
+    // per-attribute options are set in ascending or descending attribute order (the order of the calls is the caller's business)
+    for (int ai = 0; ai < (int)o.qbits.size(); ++ai) {
+      const int a = o.desc_order ? (int)o.qbits.size() - 1 - ai : ai;
       if (a == o.explicit_att) { float origin[16]; for (float &x : origin) x = o.explicit_origin; enc->SetAttributeExplicitQuantization(a, std::max(8, o.qbits[a]), o.explicit_dims, origin, o.explicit_range); }
       else if (o.qbits[a] > 0) enc->SetAttributeQuantization(a, o.qbits[a]);
       else enc->options().SetAttributeInt(a, "quantization_bits", -1);
@@ -379,12 +383,17 @@ inline Encoded encode(const Geom &g, const Opt &o) {
     if (o.compress_conn) enc.options().SetGlobalBool("compress_connectivity", true);
     // the type-keyed API: one setting per attribute type (first attribute of the type decides)
     std::set<int> seen;
+    std::vector<std::pair<GeometryAttribute::Type, int>> per_type;
     for (int a = 0; a < (int)o.qbits.size(); ++a) {
       const GeometryAttribute::Type t = g.pc->attribute(a)->attribute_type();
       if (seen.count((int)t)) continue;
       seen.insert((int)t);
-      enc.SetAttributeQuantization(t, o.qbits[a] > 0 ? o.qbits[a] : -1);
-      if (o.pred != -100) enc.SetAttributePredictionScheme(t, o.pred);
+      per_type.push_back({t, o.qbits[a] > 0 ? o.qbits[a] : -1});
+    }
+    if (o.desc_order) std::reverse(per_type.begin(), per_type.end());     // same settings, calls issued in the opposite order
+    for (auto &pt : per_type) {
+      enc.SetAttributeQuantization(pt.first, pt.second);
+      if (o.pred != -100) enc.SetAttributePredictionScheme(pt.first, o.pred);
     }
     enc.SetTrackEncodedProperties(true);
     st = g.is_mesh ? enc.EncodeMeshToBuffer(*g.mesh(), &eb) : enc.EncodePointCloudToBuffer(*g.pc, &eb);
